@@ -456,7 +456,16 @@ impl<'a> Model<'a> {
                             };
                             payload_len as u64 + modifier
                         } else {
-                            arrays.get(field_id).map(|a| a.1 as u64).unwrap_or(0)
+                            // a size modifier on the array: the field announces k octets more
+                            let modifier = decl
+                                .fields()
+                                .iter()
+                                .find_map(|g| match &g.kind {
+                                    FieldKind::Array { id, shape: Shape::Modifier(k), .. } if id == field_id => Some(*k),
+                                    _ => None,
+                                })
+                                .unwrap_or(0);
+                            arrays.get(field_id).map(|a| a.1 as u64).unwrap_or(0) + modifier
                         };
                         if n > max_of_width(*width) {
                             self.ef(if field_id.starts_with('_') { "payload-size-field" } else { "array-size-field" }, EncFault::SizeOverflow)?;
@@ -938,6 +947,14 @@ impl<'a> Model<'a> {
                     };
                     match shape {
                         Shape::Static(n) => {
+                            // elements of known size that cannot all fit: a Length fault of the
+                            // array as a whole (found before any element is looked at)
+                            if let Some(u) = unit0 {
+                                if u > 0 && (*n as u128) * (u as u128) > avail.len() as u128 {
+                                    self.length_fault(faults, "array-static");
+                                    return None;
+                                }
+                            }
                             used = run(avail, Some(*n), faults)?;
                         }
                         Shape::Unsized | Shape::Modifier(_) => {
